@@ -136,6 +136,15 @@ def check(case):
         if case.get("dtype") in ("u8", "u16"):
             tol = 1e-6 * abs(ref) + 1e-7 * mag + 1e-9
         bad = not abs(got - ref) <= tol
+    if bad and T[name][3] and not (0.0 in x or 0.0 in y):
+        # shifted metric, no exact zero among the inputs: the statement's closed form is the UNSHIFTED one; an implementation that
+        # only replaces exact zeros by EPSILON (instead of adding EPSILON everywhere) is at least as close to it. Accept either.
+        ref2, mag2 = reference(name, x, y, shifted=False)
+        if math.isfinite(ref2) and math.isfinite(mag2):
+            g2, r2 = (got * got, ref2 * ref2) if name in SQRT_FORMS else (got, ref2)
+            if abs(g2 - r2) <= 1e-9 * abs(r2) + 1e-10 * (mag2 * mag2 if name in SQRT_FORMS else mag2) + 1e-300:
+                bad = False
+                res.see("matched_unshifted_closed_form")
     if bad:
         res.violate("value", "C06/value/unsigned-dtype" if case.get("dtype") in ("u8", "u16") else "C06/value", f"{name} len={len(x)} got {got!r} closed form {ref!r} (tol {tol:.3g}) x={x} y={y}")
     res.nontrivial = len(x) >= 2 and x != y
